@@ -7,10 +7,10 @@ package gcsemu
 
 // "validated" protocol (C04/C07): a store mutation must be preceded, in the same key-lock critical section (epoch),
 // by a successful validateConds on the very object that Store.GetMeta returned in that section.
-//@ ghostvar gcsReadEpoch epoch
-//@ ghostvar gcsReadObj int
-//@ ghostvar gcsReadMetagen int
-//@ ghostvar gcsValidEpoch epoch
+//@ ghostvar gcsReadEpoch epoch protocol
+//@ ghostvar gcsReadObj int protocol
+//@ ghostvar gcsReadMetagen int protocol
+//@ ghostvar gcsValidEpoch epoch protocol
 
 //@ func validateConds
 //@   property C04 C07
